@@ -179,7 +179,21 @@ def run(repo, rep, tier):
     if dist is None:
       rep.undecided('R2/same-distribution', 'cumulative %s' % bound, 'the posterior object of the pointwise bounds was not identified', f.loc(un.ast))
       continue
-    rep.check_term(t == '%s.ppf(%s)' % (dist, qarg), t, (dist, 'tail_probability', mname), 'R2/same-distribution', 'cumulative %s = posterior quantile at %s of the same object' % (bound, qarg), f.qualname,
+    def same_quantile(txt):
+      """dist.ppf(Q) with Q equal to the expected tail probability as an expression; dist.interval(c)[i] is read as the
+      (1-c)/2 resp. 1-(1-c)/2 quantile."""
+      m1 = re.fullmatch(r'%s\.interval\((.+)\)\[(0|1)\]' % re.escape(dist), txt)
+      if m1:
+        txt = '%s.ppf(%s)' % (dist, '(1 - (%s)) / 2' % m1.group(1) if m1.group(2) == '0' else '1 - (1 - (%s)) / 2' % m1.group(1))
+      m2 = re.fullmatch(r'%s\.ppf\((.+)\)' % re.escape(dist), txt)
+      if not m2:
+        return False
+      try:
+        a_, b_ = (sym.to_sym(ast.parse(x_, mode='eval').body) for x_ in (m2.group(1), qarg))
+        return sympy.simplify(a_ - b_) == 0
+      except Exception:
+        return False
+    rep.check_term(t == '%s.ppf(%s)' % (dist, qarg) or same_quantile(t), t, (dist, 'tail_probability', mname), 'R2/same-distribution', 'cumulative %s = posterior quantile at %s of the same object' % (bound, qarg), f.qualname,
               'cumulative %s = %s' % (bound, t[:80]), 'the cumulative %s bound is `%s`, not the %s quantile of the posterior whose differences give the pointwise bounds' % (bound, t[:80], qarg), f.loc(un.ast))
   if dist:
     dd = rd.single_def(un, dist)
@@ -253,6 +267,35 @@ def run(repo, rep, tier):
     return out
   n = tbrrules.quantile_order(rep, f, 'R3/quantile-order', tbrrules.Iv(0.0, 1.0, True, True), sites, prop_hint=' and the series container raises ValueError')
   rep.floor('quantile-order obligations', n, 4)
+  # scipy's `dist.interval(c)` is the *central* interval: its ends are the (1-c)/2 and 1-(1-c)/2 quantiles. Used for a report
+  # with a number of tails, the coverage must make (1-c)/2 equal the tail probability (1-level)/tails for tails = 1 and 2.
+  import sympy as _sp
+  for q_ in (CLS, 'tbr.TBR'):
+    for fn_ in repo.cls(q_).all_functions():
+      if not ({'level', 'tails'} <= set(fn_.params)):
+        continue
+      fctx_ = FuncCtx.of(fn_)
+      for node_ in fctx_.g.nodes:
+        for e_ in fctx_.node_exprs(node_):
+          for c_ in au.calls_in(e_):
+            if not (isinstance(c_.func, ast.Attribute) and c_.func.attr == 'interval' and len(c_.args) == 1 and not c_.keywords):
+              continue
+            cov = fctx_.rd.expand(node_, c_.args[0], keep=('level', 'tails'))[0]
+            al_ = au.aliens(cov, ('level', 'tails'))
+            if al_:
+              rep.undecided('R3/quantile-order', '%s: %s' % (fn_.name, norm(c_)[:50]), 'the coverage `%s` reads unresolved names (%s)' % (norm(cov)[:50], ', '.join(al_)), fn_.loc(c_))
+              continue
+            try:
+              L, Tl = sym.symbol('level'), sym.symbol('tails')
+              cs = sym.to_sym(cov, lambda x_: L if norm(x_) == 'level' else (Tl if norm(x_) == 'tails' else None))
+              bad_t = [t_ for t_ in (1, 2) if _sp.simplify((1 - cs.subs(Tl, t_)) / 2 - (1 - L) / t_) != 0]
+            except Undecided:
+              rep.undecided('R3/quantile-order', '%s: %s' % (fn_.name, norm(c_)[:50]), 'the coverage `%s` is not an arithmetic expression of level and tails' % norm(cov)[:50], fn_.loc(c_))
+              continue
+            rep.check(not bad_t, 'R3/quantile-order', '%s: interval(%s) has the tail probability (1-level)/tails on each side' % (fn_.name, norm(cov)[:40]), fn_.qualname,
+                      '%s with coverage %s' % (norm(c_)[:40], norm(cov)[:60]),
+                      '`%s` is the central interval with coverage `%s`: for tails=%s its lower end is the %s quantile, not the (1 - level)/tails quantile the report documents — the bound series are not the posterior quantiles of the requested one-/two-tailed report'
+                      % (norm(c_)[:40], norm(cov)[:50], '/'.join(map(str, bad_t)), '(1 - (%s))/2' % norm(cov)[:30]), fn_.loc(c_))
   # R4 container guards
   cc = repo.cls('common_classes.EstimatedTimeSeriesWithConfidenceInterval')
   init = cc.methods.get('__init__')
